@@ -62,7 +62,13 @@ func (lifecycle *Lifecycle) Error(e ...error) {
 
 // Errors return lifecycle error array
 func (lifecycle *Lifecycle) Errors() []error {
-	return goaterr.AppendError(lifecycle.errors, lifecycle.ctx.Err())
+	// a private copy taken under the lock of Error: appending the context error to the
+	// shared list wrote into its spare capacity and overwrote an error recorded meanwhile
+	lifecycle.mutex.Lock()
+	errs := make([]error, len(lifecycle.errors), len(lifecycle.errors)+1)
+	copy(errs, lifecycle.errors)
+	lifecycle.mutex.Unlock()
+	return goaterr.AppendError(errs, lifecycle.ctx.Err())
 }
 
 // Step return lifecycle step
